@@ -11,6 +11,20 @@
 (*          2..4 = some of them, 5 = empty struct ("with and without UV    *)
 (*          options")                                                      *)
 (*   scale  the projection logs position * scale rounded to integers       *)
+(*   mag    <<base, exp>>, the MAGNITUDE of the tuple: the real dimension  *)
+(*          i handed to the constructor is d[i]/16 * base^exp (base 2 or   *)
+(*          10, exp negative or positive).  The statement puts no lower or *)
+(*          upper bound on a size (only > 0) and every clause of the       *)
+(*          contract is invariant under a uniform scaling of the solid, so *)
+(*          the contract of <<d, mag>> is the contract of d on the mesh    *)
+(*          scaled by base^-exp: the projection logs position * scale /    *)
+(*          base^exp and merges coincident positions in those units; all   *)
+(*          predicates below are evaluated unchanged, on exact integers.   *)
+(*          A constructor that uses an ABSOLUTE length anywhere (a weld    *)
+(*          tolerance, an epsilon) is not scale invariant and is rejected  *)
+(*          at the magnitudes where that length matters (MagOK bounds the  *)
+(*          ladder by what float64 represents without under/overflow of    *)
+(*          squared lengths: 2^-200 .. 2^200, 10^-60 .. 10^60).            *)
 (*                                                                         *)
 (* Contract (evaluated by TraceSurf on the real mesh, positions merged     *)
 (* into classes at 1e-6 by the projection):                                *)
@@ -59,6 +73,9 @@ Admissible(c) ==
     /\ CASE c.prim \in Round -> c.rows >= 2 /\ c.cols >= 3 /\ c.d[1] > 0
          [] c.prim \in Cubes -> c.d[1] > 0 /\ c.d[2] > 0 /\ c.d[3] > 0
          [] OTHER -> c.sides >= 3 /\ c.d[1] > 0 /\ c.d[2] > 0
+
+MagOK(m) == /\ m[1] \in {2, 10}
+            /\ IF m[1] = 2 THEN m[2] \in -200..200 ELSE m[2] \in -60..60
 
 \* largest power of two S with extent * S <= 16 * 2^14 (extent in 1/16 units)
 RECURSIVE ScaleFrom(_, _)
